@@ -127,6 +127,7 @@ fn cmd_check(id: &str, tier: &str) {
     let mut samples = vec![];
     let mut scen_summ = vec![];
     let mut det_pairs = 0u64;
+    let mut grids: Vec<serde_json::Value> = vec![];
     let mut strata: std::collections::BTreeSet<String> = Default::default();
     let mut harness_errors: Vec<String> = vec![];
     for sc in &check.scens {
@@ -173,6 +174,9 @@ fn cmd_check(id: &str, tier: &str) {
             secs
         );
         scen_summ.push(json!({"scenario": sc.name, "runs": out.runs, "fault_free_runs": out.fault_free_runs, "faulted_runs": out.faulted_runs, "distinct_abstract_traces": out.distinct.len(), "steps": out.stats.steps, "wall_s": secs, "combined_trace_hash": format!("{:016x}", out.combined_trace)}));
+        if let Some(space) = checks::grid_space(sc.name, thorough) {
+            grids.push(json!({"grid": sc.name, "space": space, "runs": out.runs, "enumerated_completely": out.runs >= space}));
+        }
         total_runs += out.runs;
         strata.extend(out.strata.iter().cloned());
         stats.merge(&out.stats);
@@ -314,6 +318,7 @@ fn cmd_check(id: &str, tier: &str) {
             "strata_note": "stratum = pattern x psk class {none, single, multi, all} x DH x cipher x hash",
             "scenarios": scen_summ,
             "enumerations": enum_out.summary,
+            "index_decoded_grids": grids,
             "components_real": ["snow::Builder", "name parser", "HandshakeState", "SymmetricState", "CipherState", "TransportState", "StatelessTransportState", "DefaultResolver (RustCrypto primitives)", "RingResolver (ring)", "FallbackResolver"],
             "components_stub": ["network link (in-memory, simulator-owned)", "random source (SimRng via CryptoResolver::resolve_rng)", "application drivers", "recording pass-through Cipher (when enabled)", "resolver-lacking-a-primitive wrappers"],
             "model_selfcheck": {"vectors": nvec, "messages": nmsg, "file": "vectors/cacophony.txt (Curve25519 vectors)"},
